@@ -109,6 +109,10 @@ def body():
                 addm(target, variant, mutlib.apply_tls(seed, p), "v:" + name)
             if not tree or p[0][1] in ("trunc", "fill", "grow", "len=", "tag="):
                 addm(target, variant, mutlib.apply_bytes(seed, p, text=target in TEXT_TARGETS), "b:" + name)
+        # every member of every constructed node repeated to just below / at / above small array bounds (4, 8, 16, 32): positions the slot abstraction does not reach
+        if tree and len(seed) < 6000:
+            for nm, mut in mutlib.per_node_repeats(seed, counts=((3, 4, 8, 16, 32) if q else (1, 2, 3, 4, 5, 7, 8, 9, 15, 16, 17, 31, 32, 33, 64))):
+                addm(target, variant, mut, nm)
         # every prefix of small objects, every single byte set to 0 / 0xff for the first 160 bytes
         step = 1 if len(seed) < 400 else 7
         for n in range(0, len(seed), step):
@@ -231,13 +235,52 @@ def body():
             if san or not ended:
                 c.violation(key, "a library endpoint crashed, hung or tripped a sanitizer on an edited handshake message from a key-holding peer: %s" % str(san)[:500], {"peer_view": view, "events": evs, "report": str(san)[:3000]})
     c.cov["keyholding_peer_handshakes"] = rdone
+    # ---- (5) "without using uninitialised memory" on the handshake paths: the same independent peer against a MemorySanitizer build of the library
+    # endpoint -- every protocol x both roles x both authentication modes honestly, then a sample of the edited handshakes.  (ASan cannot see a
+    # length that was never assigned -- tls12_do_accept's server_exts_len, fixed in 4f9e001, was found by reading and is pinned here.)
+    mexe = vlib.cc_driver("srvdrv", ["srvdrv.c", "vh.c"], "msan")
+    mjobs = []
+    for proto, sp in ((257, "tlcp"), (771, "srv"), (772, "srv")):
+        for mutual in ("trust_root", "-"):
+            mjobs.append((proto, sp + "_d2", "client", mutual, None))
+        mjobs.append((proto, sp + "_d2", "server", "trust_root", None))
+    extra = [j for j in rjobs]
+    rng.shuffle(extra)
+    for proto, cred, role, t, p in extra[:(40 if q else 400)]:
+        mjobs.append((proto, cred, role, "trust_root", (t, p)))
+    mdone = 0
+    with cf.ProcessPoolExecutor(14) as ex:
+        futs = {}
+        for j in mjobs:
+            proto, cred, role, mutual, mp = j
+            if role == "client":
+                futs[ex.submit(roguepeer.run, rcreds, mexe, proto, cred, mutual, "honest", "cli_d2", 60, mp)] = j
+            else:
+                futs[ex.submit(roguepeer.run_server, rcreds, mexe, proto, cred, mutual, "honest", 60, mp)] = j
+        for f in cf.as_completed(futs):
+            proto, cred, role, mutual, mp = futs[f]
+            key = "c06:msan:p%d:rogue-%s:%s:%s" % (proto, role, "mutual" if mutual != "-" else "oneway",
+                                                  "honest" if mp is None else "hs%d:%s" % (mp[0], "+".join("%d.%s.%s.%s" % (s_, k_, a_, "f" if f_ else "n") for s_, k_, a_, f_ in mp[1])))
+            c.count(1, key)
+            mdone += 1
+            try:
+                view, evs, san = f.result()
+            except Exception as exn:
+                c.violation(key, "the independent peer itself failed: %r" % exn, {})
+                continue
+            ended = any(e.get("e") == "End" for e in evs)
+            if san or not ended:
+                c.violation(key, "a library endpoint used uninitialised memory (MemorySanitizer), crashed or hung in a handshake with the independent peer: %s" % str(san)[:500], {"peer_view": view, "events": evs, "report": str(san)[:3000]})
+            elif mp is None and not any(e.get("e") == "HsRet" and e.get("rc") == 1 for e in evs):
+                c.violation(key, "the honest handshake with the independent peer did not complete under the MemorySanitizer build", {"peer_view": view, "events": evs})
+    c.cov["msan_handshakes"] = mdone
     c.sample({"seeds": ["%s/v%d (%d bytes)" % (t, v, len(s)) for t, v, s in seeds][:40]})
     return c.finish(
         rule="reader core: all strings over %s up to length %d + random longer ones; mutants: every single edit program of Mutate.tla on every seed object (tree and byte interpretation), all prefixes, "
              "byte overwrites of the first %d bytes (thorough: + 3000 random edit pairs); TLS: 3 protocols x auth modes x both directions x record 1..8 x record-level edit programs (quick: 1500 sampled); "
              "distinct = distinct mutant keys" % (ALPHABET, maxlen, 160 if q else 600),
         trusted=["AddressSanitizer / UBSan (bounds, pointer-overflow, null, object-size) as the observer of memory errors", "TLC (Wire.tla, WireJudge.tla, Mutate.tla)", "tools/mutlib.py (independent DER reader/writer)"],
-        assumptions=["memory safety is observed, not proved: coverage is the enumerated grammar, not all byte strings up to 64 KiB", "MemorySanitizer (uninitialised reads) is not part of the quick tier"])
+        assumptions=["memory safety is observed, not proved: coverage is the enumerated grammar, not all byte strings up to 64 KiB", "MemorySanitizer (uninitialised reads) observes the handshake paths only (honest + sampled edited handshakes with the independent peer); the decoder sweeps run under ASan/UBSan"])
 
 
 if __name__ == "__main__":
